@@ -62,6 +62,8 @@ pub struct Runner<'a, 'b> {
     pub known: Known,
     pub out: &'a mut Out<'b>,
     pub dump_every_op: bool,
+    pub honour_reopen: bool,
+    pub opidx: usize,
     pub dead: bool,
 }
 
@@ -80,6 +82,9 @@ impl Runner<'_, '_> {
     }
 
     pub async fn add_version(&mut self, ci: usize, p: Uuid, body: Vec<u8>, cuts: u64) {
+        self.add_version_inner(ci, p, body, cuts, false).await
+    }
+    async fn add_version_inner(&mut self, ci: usize, p: Uuid, body: Vec<u8>, cuts: u64, retried: bool) {
         let c = self.known.clients[ci];
         let now = unix_now();
         match self.entry {
@@ -102,6 +107,19 @@ impl Runner<'_, '_> {
                     }
                 };
                 self.out.line(&format!("av {c} {p} {} {nid} {now} => {obs}", blob(&body)));
+                if obs == "nsc" && !retried {
+                    // what the HTTP handler does: create the client in its own transaction, then retry
+                    let r: anyhow::Result<()> = (|| {
+                        let mut t = self.sut.storage.txn(c)?;
+                        if t.get_client()?.is_none() {
+                            t.new_client(Uuid::nil())?;
+                            t.commit()?;
+                        }
+                        Ok(())
+                    })();
+                    self.out.line(&format!("create {c} => {}", if r.is_ok() { "ok" } else { "err" }));
+                    return Box::pin(self.add_version_inner(ci, p, body, cuts, true)).await;
+                }
             }
             Entry::Http => {
                 let spec = ReqSpec {
@@ -289,54 +307,55 @@ impl Runner<'_, '_> {
         match op {
             AOp::Av { ci, p, payload, cuts } => {
                 let pid = self.known.resolve(*ci, p);
-                self.out.line(&format!("# op=av ci={ci} class={} plen={} pkind={}", p.class(), payload.len, PAYLOAD_KINDS[payload.kind as usize]));
+                self.out.line(&format!("# i={} op=av ci={ci} class={} plen={} pkind={}", self.opidx, p.class(), payload.len, PAYLOAD_KINDS[payload.kind as usize]));
                 self.add_version(*ci, pid, payload.bytes(), *cuts).await;
             }
             AOp::Gcv { ci, p } => {
                 let pid = self.known.resolve(*ci, p);
-                self.out.line(&format!("# op=gcv ci={ci} class={}", p.class()));
+                self.out.line(&format!("# i={} op=gcv ci={ci} class={}", self.opidx, p.class()));
                 self.get_child(*ci, pid).await;
             }
             AOp::As { ci, v, payload, cuts } => {
                 let vid = self.known.resolve(*ci, v);
                 // position of v in the chain, counted from the latest (0 = latest), for the histogram
                 let pos = self.known.chain[*ci].iter().rev().position(|x| *x == vid).map(|x| x as i64).unwrap_or(-1);
-                self.out.line(&format!("# op=as ci={ci} class={} pos={pos} chainlen={}", v.class(), self.known.chain[*ci].len()));
+                self.out.line(&format!("# i={} op=as ci={ci} class={} pos={pos} chainlen={}", self.opidx, v.class(), self.known.chain[*ci].len()));
                 self.add_snapshot(*ci, vid, payload.bytes(), *cuts).await;
             }
             AOp::Gs { ci } => {
-                self.out.line(&format!("# op=gs ci={ci}"));
+                self.out.line(&format!("# i={} op=gs ci={ci}", self.opidx));
                 self.get_snapshot(*ci).await;
             }
             AOp::Reopen => {
-                if self.sut.kind == BackendKind::Sql {
+                if self.honour_reopen && self.sut.kind == BackendKind::Sql {
+                    self.out.line(&format!("# i={} op=reopen", self.opidx));
                     self.sut.reopen().await;
+                    self.out.line("reopen => ok");
                 }
-                self.out.line("reopen => ok");
             }
             AOp::Walk { ci } => {
-                self.out.line(&format!("# op=walk ci={ci} chainlen={}", self.known.chain[*ci].len()));
+                self.out.line(&format!("# i={} op=walk ci={ci} chainlen={}", self.opidx, self.known.chain[*ci].len()));
                 if let Some(b) = self.known.base[*ci] {
                     let lim = self.known.chain[*ci].len() + 2;
                     self.walk_from(*ci, b, lim).await;
                 }
             }
             AOp::SnapWalk { ci } => {
-                self.out.line(&format!("# op=snapwalk ci={ci}"));
+                self.out.line(&format!("# i={} op=snapwalk ci={ci}", self.opidx));
                 if let Some(v) = self.get_snapshot(*ci).await {
                     let lim = self.known.chain[*ci].len() + 2;
                     self.walk_from(*ci, v, lim).await;
                 }
             }
             AOp::Reread { ci } => {
-                self.out.line(&format!("# op=reread ci={ci} n={}", self.known.parents[*ci].len()));
+                self.out.line(&format!("# i={} op=reread ci={ci} n={}", self.opidx, self.known.parents[*ci].len()));
                 for p in self.known.parents[*ci].clone() {
                     self.get_child(*ci, p).await;
                 }
             }
             AOp::GcvThenAv { ci, p, payload } => {
                 let pid = self.known.resolve(*ci, p);
-                self.out.line(&format!("# op=gcv+av ci={ci} class={}", p.class()));
+                self.out.line(&format!("# i={} op=gcv+av ci={ci} class={}", self.opidx, p.class()));
                 self.get_child(*ci, pid).await;
                 self.add_version(*ci, pid, payload.bytes(), 0).await;
             }
@@ -344,5 +363,6 @@ impl Runner<'_, '_> {
         if self.dump_every_op && !self.dead {
             self.dump_all();
         }
+        self.opidx += 1;
     }
 }
